@@ -65,12 +65,18 @@ def strategy(draw):
     return dict(kind=kind, func=func, f=f, groups=groups, masks=masks, pmasks=pmasks, azimuths=azs, opts=opts,
                 dist_mc=draw(st.sampled_from(["lognormal", "normal"])), dist_fn=draw(st.sampled_from(["lognormal", "normal"])),
                 normalize=draw(st.booleans()), by_az=draw(st.booleans()), range=draw(st.sampled_from([None, None, "bounded"])),
-                kw=draw(st.sampled_from([None, None, {"height-cap": 0.6}, {"height-cap": 0.85}, {"prominence": 1.5}, {"width": 3}])))
+                kw=draw(st.sampled_from([None, None, {"height-cap": 0.6}, {"height-cap-mean": 0.9}, {"height-cap-mean": 0.8}, {"prominence": 1.5}, {"width": 3}])),
+                two_peaks=dict(centre=draw(gen.floats(0.72, 0.85)), ratio=draw(gen.floats(0.45, 0.7))))
 
 
 def _build(hv, case):
     f = np.array(case["f"], dtype=float)
     groups = [c06.expand_group(g, f) for g in case["groups"]]
+    tp = case.get("two_peaks")
+    if tp and case.get("kw") and "height-cap-mean" in case["kw"]:
+        # a second, lower bump common to all windows: the mean curve then has two clear peaks
+        x = np.linspace(0, 1, len(f))
+        groups = [A + tp["ratio"] * (A.max(axis=1, keepdims=True) - 1.0) * np.exp(-0.5 * ((x - tp["centre"]) / 0.04) ** 2) for A in groups]
     if case["kind"] == "traditional":
         obj = hv.HvsrTraditional(f, groups[0], meta={"site": "x"})
     elif case["kind"] == "diffuse_field":
@@ -78,7 +84,10 @@ def _build(hv, case):
     else:
         obj = hv.HvsrAzimuthal([hv.HvsrTraditional(f, A) for A in groups], case["azimuths"], meta={"site": "x"})
     kw = case.get("kw")
-    if kw and "height-cap" in kw:
+    if kw and "height-cap-mean" in kw:
+        ref_rows = groups[0] if case["kind"] != "diffuse_field" else groups[0][:1]
+        kw = {"height": [None, kw["height-cap-mean"] * float(np.max(np.exp(np.mean(np.log(ref_rows), axis=0))))]}
+    elif kw and "height-cap" in kw:
         top = float(np.max([np.max(g) for g in groups])) if case["kind"] != "diffuse_field" else float(np.max(groups[0][0]))
         kw = {"height": [None, kw["height-cap"] * top]}      # scipy: (min, max) admissible peak height
     if case["range"] == "bounded" or kw:
